@@ -195,7 +195,7 @@ def main(tier):
         for pair in range(sched.STRING_PAIRS):
             pts[pair] = (sched.string_points(0, pair=pair), sched.string_points(1, pair=pair))
         pts0, pts1 = pts[0][0][0], pts[0][1][0]
-        for k in range(360 if tier == 'quick' else 8000):
+        for k in range(360 if tier == 'quick' else 3000):
             pair = k % sched.STRING_PAIRS
             (q0, n0), (q1, n1) = pts[pair]
             if k % 3 == 2:
@@ -266,7 +266,7 @@ def main(tier):
             'instance of a subclass of a built-in type (bounded and random schedules over the same lines); 2-3 threads printing values that SHARE sub-objects, gated on the line events of '
             '_run_pretty (where visits start and end): every single-preemption schedule up to 70 (thorough: 140) lines '
             'and seeded random interleavings; same or different widths per thread; 2-3 threads laying out different values, '
-            '2 threads, one printing with explicit settings and one without (plus a later sequential call), the first preempted at every first execution of a package line; 2 threads printing different values with long strings under two preemptions (A stops after i lines, B after j, A ends, B ends; 360 / 8000 seeded (i, j) over 4 pairs of values - string at top level / in a list / dict / nested - two thirds at points where a package line runs for the 1st or 2nd time, one third uniform); gated on the line events of best_layout and both fitting predicates (seeded random interleavings, runs of '
+            '2 threads, one printing with explicit settings and one without (plus a later sequential call), the first preempted at every first execution of a package line; 2 threads printing different values with long strings under two preemptions (A stops after i lines, B after j, A ends, B ends; 360 / 3000 seeded (i, j) over 4 pairs of values - string at top level / in a list / dict / nested - two thirds at points where a package line runs for the 1st or 2nd time, one third uniform); gated on the line events of best_layout and both fitting predicates (seeded random interleavings, runs of '
             '1..120 lines); 2-3 threads printing mixed values (split strings, comments, calls, shared objects) gated on EVERY '
             'line executed inside the package (seeded random interleavings, runs of 1..2000 lines); a sweep with ONE preemption at '
             'the first execution of every distinct package line of a print of never-printed classes (fresh namedtuple, tuple '
